@@ -15,6 +15,20 @@ CLAIMED = {
         "Trusts IEEE arithmetic, math.fsum and the harness's 40-line oracle; absence beyond the generated sizes is not shown.",
         "DESIGN.md section 6 C01",
     ),
+    "C16": (
+        "Hypothesis property-based testing of round-trip / algebraic laws (regular simplex, affine law, inverse, scale invariance; norm, angle ranges, both round trips); exhaustive over n for the simplex corners",
+        "Generated point sets in dimension 2-12 incl. axis/plane/origin/zero-tail/negative points and magnitudes 1e-100..1e100 against own fsum norm and the "
+        "algebraic identities; catches sign/recursion/centring/height defects of the transforms on every generated shape.",
+        "Trusts IEEE arithmetic and the identities typed into the harness; arccos conditioning limits the round-trip tolerance to 1e-7*radius*d.",
+        "DESIGN.md section 6 C16",
+    ),
+    "C20": (
+        "Hypothesis property-based testing against the closed-form law with exact SI constants; round-trip, linearity, element-wise and plain-vs-quantity differential relations",
+        "Generated scalars/1-D/N-D spectra with the wavelength on any axis, all prefixes, plain and pint inputs in several units, both directions, compared to "
+        "I*lambda*1e-9/(h c N_A)/prefix at 1e-12 relative.",
+        "Trusts the SI-2019 constants typed into the harness and pint's unit algebra for the independent unit-scale cross-check.",
+        "DESIGN.md section 6 C20",
+    ),
 }
 
 PENDING_REASON = "check not built yet in this revision (planned, see DESIGN.md section 6); not claimed until its check runs quietly on the unchanged tree"
